@@ -89,4 +89,7 @@ def run(env: Env) -> Outcome:
     # an elapsed-time budget across snapshot -> stop -> resume: a step suspended in wait_for_event (first attempt or a retry) is replayed
     # in the resumed run and fails; elapsed time handed to the policy / reported / in retry_info() counts from the REAL first attempt
     c05_resume.resumed_delay_runs(env, out, env.budget(150, 3000), suite.load_corpus("C05"))
+    # K for the same path: to_serialized -> JSON -> from_serialized of generated broker states against the model's `serde` (the generated
+    # waiters include attempts = 0 with a first_attempt_at, and retries with their failure record)
+    suite.serde_corr(env, out, env.budget(200, 4000))
     return out
